@@ -856,6 +856,30 @@ fn c15_burst(req: &str, proxy: bool, allowed: (bool, bool), allow: &str, limit: 
     Case { request, observed: observed.join(","), oracle: if why.is_empty() { None } else { Some(why.join("; ")) }, class: format!("burst proxy={} limiter={}", u8::from(proxy), if limit.is_some() { "on" } else { "off" }) }
 }
 
+/// C04 at the listener: whatever a client sends first — every PROXY header of the menu, with either version switched
+/// off, or no header at all — no task of the listener panics (a panicking task is silent for everybody but that client).
+pub fn c04_listener_cases() -> Vec<Case> {
+    static PANICS: std::sync::atomic::AtomicUsize = std::sync::atomic::AtomicUsize::new(0);
+    static LAST: Mutex<String> = Mutex::new(String::new());
+    let prev = std::panic::take_hook();
+    std::panic::set_hook(Box::new(|info| { PANICS.fetch_add(1, std::sync::atomic::Ordering::SeqCst); *LAST.lock().unwrap_or_else(|e| e.into_inner()) = info.to_string(); }));
+    let all: Vec<String> = (0..MENU).map(|h| format!("1/{h}")).collect();
+    let mut out = vec![];
+    for (proxy, allow) in [(1, "11"), (1, "10"), (1, "01"), (0, "11")] {
+        let req = format!("c15.run proxy={proxy} allow={allow} limit=off via=listener hdrs={} login=0", all.join(";"));
+        let before = PANICS.load(std::sync::atomic::Ordering::SeqCst);
+        let mut c = guarded(&req, c15_case);
+        if PANICS.load(std::sync::atomic::Ordering::SeqCst) > before {
+            let msg = format!("a task panicked while the listener handled a client's first bytes: {}", LAST.lock().unwrap_or_else(|e| e.into_inner()).replace('\n', " "));
+            c.oracle = Some(match c.oracle.take() { Some(o) => format!("{msg}; {o}"), None => msg });
+        }
+        c.class = format!("listener:first-bytes proxy={proxy} allow={allow}");
+        out.push(c);
+    }
+    std::panic::set_hook(prev);
+    out
+}
+
 pub fn run_c15(a: &Args) {
     let mut reqs: Vec<String> = read_corpus(&a.corpus).into_iter().filter(|l| l.starts_with("c15.")).collect();
     let mut rng = Rng::new(a.seed);
